@@ -14,6 +14,7 @@ import ConduitModel.Driver.ForceStop
 import ConduitModel.Driver.ProcNode
 import ConduitModel.Driver.SrcAck
 import ConduitModel.Driver.Stream
+import ConduitModel.Driver.WorkerStop
 
 /-
 `driver <component>` : reads cases from stdin (one per line), writes one result line per case.
@@ -56,6 +57,7 @@ def component (name : String) : Option (String → String) :=
   | "srcack" => some SrcAckD.srcackLine
   | "condmerge" => some StreamD.condMergeLine
   | "pipe" => some StreamD.pipeLine
+  | "workerstop" => some WorkerStopD.workerstopLine
   | _ => none
 
 partial def loop (h : IO.FS.Stream) (out : IO.FS.Stream) (f : String → String) : IO Unit := do
